@@ -8,6 +8,9 @@ package agreement
 // (Voters, Counts incl. Votes, Equivocators, EquivocatorsCount), maps sorted by key.
 // Votes are constructed directly (vote{R: ..., Cred: {Weight: w}}) as voteMakerHelper does:
 // the tracker only ever sees verified votes and never looks at signatures.
+// Proposal values are full 4-field values from an 81-element universe in which distinct
+// values share fields (same digests / other OriginalPeriod or OriginalProposer, zero fields):
+// "same value" must mean equality of ALL four fields (see vC06Val).
 //
 // Streams:  exhaustive  all sequences of length L over nS senders x nV values, for several
 //                       per-sender weight vectors, thresholds and steps (small protos
@@ -51,19 +54,73 @@ func vC06AddrIdx(t *testing.T, a basics.Address) uint64 {
 	return binary.BigEndian.Uint64(a[24:])
 }
 
-func vC06Val(i uint64) (p proposalValue) {
-	binary.BigEndian.PutUint64(p.BlockDigest[24:], i)
-	binary.BigEndian.PutUint64(p.EncodingDigest[24:], i^0x5a5a)
-	p.OriginalProposer = vC06Addr(1000 + i)
+// Proposal values are 4-field values.  The value id is the base-3 number d3 d2 d1 d0 of the
+// choices for (EncodingDigest, BlockDigest, OriginalProposer, OriginalPeriod); choice 0 is the
+// zero ("bottom"-like) field.  81 distinct values; two different ids frequently share one,
+// two or three fields (e.g. the same digests with another OriginalPeriod / OriginalProposer).
+// The model identifies a value with its id, i.e. it compares FULL values.
+var vC06Periods = [3]period{0, 3, 5}
+
+func vC06Dig(tag byte, c uint64) (d [32]byte) {
+	if c != 0 {
+		d[0], d[31] = tag, byte(c)
+	}
 	return
 }
 
+func vC06Val(i uint64) (p proposalValue) {
+	if i >= 81 {
+		panic("c06: value id out of range")
+	}
+	p.OriginalPeriod = vC06Periods[i%3]
+	if c := (i / 3) % 3; c != 0 {
+		p.OriginalProposer = vC06Addr(1000 + c)
+	}
+	p.BlockDigest = vC06Dig(0xbd, (i/9)%3)
+	p.EncodingDigest = vC06Dig(0xed, (i/27)%3)
+	return
+}
+
+var vC06ValIds = func() map[proposalValue]uint64 {
+	m := make(map[proposalValue]uint64, 81)
+	for i := uint64(0); i < 81; i++ {
+		m[vC06Val(i)] = i
+	}
+	if len(m) != 81 {
+		panic("c06: value universe not injective")
+	}
+	return m
+}()
+
 func vC06ValIdx(t *testing.T, p proposalValue) uint64 {
-	i := binary.BigEndian.Uint64(p.BlockDigest[24:])
-	if p != vC06Val(i) {
+	i, ok := vC06ValIds[p]
+	if !ok {
 		t.Fatalf("c06: foreign proposal value %v", p)
 	}
 	return i
+}
+
+// palettes of value ids for the small universes: values that differ in exactly one field
+// (period / proposer / block digest / encoding digest), in two, three or all four, with and
+// without zero fields
+var vC06Pal2 = [][]uint64{
+	{39, 40}, // same proposer+digests, OriginalPeriod 0 vs 3
+	{40, 43}, // same period+digests, proposer X vs Y
+	{40, 37}, // proposer X vs zero
+	{40, 49}, // BlockDigest D1 vs D2 only
+	{40, 67}, // EncodingDigest E1 vs E2 only
+	{40, 13}, // EncodingDigest E1 vs zero
+	{40, 44}, // period and proposer differ, digests shared
+	{0, 1},   // all-zero value vs OriginalPeriod 3 only
+	{0, 40},  // bottom vs a full value
+	{40, 80}, // nothing shared
+}
+var vC06Pal3 = [][]uint64{
+	{39, 40, 41}, // three periods, rest shared
+	{40, 43, 44}, // digests shared
+	{0, 9, 27},   // zero / only BlockDigest / only EncodingDigest
+	{40, 49, 67},
+	{13, 40, 80},
 }
 
 func vC06Proto(name string, th [6]uint64) protocol.ConsensusVersion {
@@ -172,6 +229,7 @@ func vC06Handle(tr *voteTracker, ev voteAcceptedEvent) (res event, tag string) {
 	return
 }
 
+// votes carry value ids (see vC06Val)
 func vC06Run(t *testing.T, out *vOut, st *vC06Stats, stream string, ver protocol.ConsensusVersion, s step, votes []vC06Vote) {
 	r, p := round(7), period(3)
 	tr := new(voteTracker)
@@ -260,6 +318,10 @@ func vC06Exhaustive(t *testing.T, out *vOut, st *vC06Stats, nS, nV, L int, combo
 	for ci, c := range combos {
 		ws, th := c.ws, c.th
 		s := steps[(ci+nS+L)%len(steps)]
+		pal := vC06Pal2[(ci*3+nS+L)%len(vC06Pal2)]
+		if nV == 3 {
+			pal = vC06Pal3[(ci+nS+L)%len(vC06Pal3)]
+		}
 		ver := vC06Proto(fmt.Sprintf("verif-c06-t%d", th), [6]uint64{th, th, th, th, th, th})
 		for i := range idx {
 			idx[i] = 0
@@ -267,7 +329,7 @@ func vC06Exhaustive(t *testing.T, out *vOut, st *vC06Stats, nS, nV, L int, combo
 		for {
 			votes := make([]vC06Vote, L)
 			for i, a := range idx {
-				votes[i] = vC06Vote{uint64(a / nV), uint64(a % nV), ws[a/nV]}
+				votes[i] = vC06Vote{uint64(a / nV), pal[a%nV], ws[a/nV]}
 			}
 			vC06Run(t, out, st, "exhaustive", ver, s, votes)
 			k := L - 1
@@ -350,6 +412,27 @@ func TestVerifC06(t *testing.T) {
 			ln = 60 + rnd.Intn(140)
 		}
 		style := rnd.Intn(4)
+		// nV distinct value ids; mostly neighbours of one base value (1..2 fields changed)
+		pal := make([]uint64, 0, nV)
+		base := uint64(rnd.Intn(81))
+		for len(pal) < nV {
+			id := base
+			pow := [4]uint64{1, 3, 9, 27}
+			for f := 0; f < 1+rnd.Intn(2); f++ {
+				w := pow[rnd.Intn(4)]
+				id = id - ((id/w)%3)*w + uint64(rnd.Intn(3))*w
+			}
+			if rnd.Intn(6) == 0 {
+				id = uint64(rnd.Intn(81))
+			}
+			dup := false
+			for _, x := range pal {
+				dup = dup || x == id
+			}
+			if !dup {
+				pal = append(pal, id)
+			}
+		}
 		votes := make([]vC06Vote, ln)
 		for k := range votes {
 			sd := uint64(rnd.Intn(nS))
@@ -369,7 +452,7 @@ func TestVerifC06(t *testing.T) {
 			default: // each sender sticks to one value, with duplicates
 				pv = (sd * 7 / 3) % uint64(nV)
 			}
-			votes[k] = vC06Vote{sd, pv, ws[sd]}
+			votes[k] = vC06Vote{sd, pal[pv], ws[sd]}
 		}
 		vC06Run(t, out, st, "random", ver, s, votes)
 	}
@@ -394,7 +477,7 @@ func TestVerifC06(t *testing.T) {
 			if rnd.Intn(4) == 0 {
 				w = rnd.Edge64()
 			}
-			votes[k] = vC06Vote{uint64(rnd.Intn(nS)), uint64(rnd.Intn(nV)), w}
+			votes[k] = vC06Vote{uint64(rnd.Intn(nS)), uint64(39 + rnd.Intn(nV)*(1+2*(i%3))), w}
 		}
 		vC06Run(t, out, st, "malformed", ver, s, votes)
 		st.malformed++
